@@ -1033,18 +1033,20 @@ func c19EnumScripted(r *Run) {
 	}}
 	ts := TxnSchema{Spec: SchemaSpec{Name: "db", Tables: []TableSpec{t}}, Specs: map[string][]ISpec{"E": {}}}
 	var texts []string
-	for _, col := range []string{"act", "oact", "acts", "lvl"} {
+	// (the built-in columns _uuid and _version are columns too: they have a name and no type object of their own)
+	for _, col := range []string{"act", "oact", "acts", "lvl", "_uuid", "_version"} {
 		for _, mut := range []string{"+=", "-=", "*=", "/=", "%=", "insert", "delete"} {
-			for _, val := range []string{`"drop"`, `1`, `0`, `["set",["allow","drop"]]`, `["set",[]]`, `"nosuch"`, `1.5`, `true`} {
+			for _, val := range []string{`"drop"`, `1`, `0`, `["set",["allow","drop"]]`, `["set",[]]`, `"nosuch"`, `1.5`, `true`,
+				`["uuid","00000001-0000-4000-8000-000000000001"]`, `["set",[["uuid","00000001-0000-4000-8000-000000000001"]]]`, `["map",[]]`} {
 				texts = append(texts, `[{"op":"mutate","table":"E","where":[],"mutations":[["`+col+`","`+mut+`",`+val+`]]}]`)
 			}
 		}
 		for _, fn := range []string{"==", "!=", "<", "<=", ">", ">=", "includes", "excludes"} {
-			for _, val := range []string{`"drop"`, `2`, `["set",["allow"]]`, `"nosuch"`} {
+			for _, val := range []string{`"drop"`, `2`, `["set",["allow"]]`, `"nosuch"`, `["uuid","00000001-0000-4000-8000-000000000001"]`, `["set",[]]`} {
 				texts = append(texts, `[{"op":"select","table":"E","where":[["`+col+`","`+fn+`",`+val+`]]}]`)
 			}
 		}
-		for _, val := range []string{`"drop"`, `"nosuch"`, `7`, `["set",["allow","allow"]]`, `["set",[]]`} {
+		for _, val := range []string{`"drop"`, `"nosuch"`, `7`, `["set",["allow","allow"]]`, `["set",[]]`, `["uuid","00000002-0000-4000-8000-000000000002"]`} {
 			texts = append(texts, `[{"op":"update","table":"E","where":[],"row":{"`+col+`":`+val+`}}]`,
 				`[{"op":"insert","table":"E","row":{"name":"x","`+col+`":`+val+`}}]`)
 		}
@@ -1062,7 +1064,7 @@ func c19EnumScripted(r *Run) {
 		func() {
 			defer func() {
 				if p := recover(); p != nil {
-					r.Violation("transact-scripted", cs, fmt.Sprintf("panic: %v", p), "results or error results", true, "the database panicked on an operation on an enum column", "")
+					r.Violation("transact-scripted", cs, fmt.Sprintf("panic: %v", p), "results or error results", true, "the database panicked on an operation on an enum or built-in column", "")
 				}
 			}()
 			tx := im.d.NewTransaction("db")
@@ -1070,7 +1072,7 @@ func c19EnumScripted(r *Run) {
 		}()
 		out := im.transact([]OperationJ{{Op: "select", Table: "E"}}, nil)
 		if out.Panic != "" || hasErr(out.Results) || len(out.Results) != 1 || len(out.Results[0].Rows) == 0 {
-			r.Violation("transact-scripted", cs, out.Panic, "", true, "the database does not serve a simple select after an operation on an enum column", "")
+			r.Violation("transact-scripted", cs, out.Panic, "", true, "the database does not serve a simple select after an operation on an enum or built-in column", "")
 		}
 	}
 }
